@@ -60,7 +60,8 @@ def alarm(seconds):
 # cooperative scheduler and stand-ins for Process / Pipe / Queue / Value
 # ---------------------------------------------------------------------------------------------------
 class Sched:
-    def __init__(self, policy, rnd=None, script=None):
+    def __init__(self, policy, rnd=None, script=None, sync=False):
+        self.sync = sync          # rendezvous pipes: send returns only when the message has been received
         self.cv = threading.Condition()
         self.turn = None
         self.pending = {}
@@ -81,7 +82,7 @@ class Sched:
 
     def enabled(self, j):
         q = self.pending[j]
-        return q is None or len(q) > 0
+        return q is None or (q() if callable(q) else len(q) > 0)
 
     def pick(self):
         en = sorted(j for j in self.alive if self.enabled(j))
@@ -183,7 +184,12 @@ def make_primitives(sched):
             sched.yield_point(i, None)
             sched.events[i].append(("send", self.pid))
             sched.pipe_users.setdefault(self.pid, set()).add(i)
-            self.outq.append(pickle.dumps(obj))
+            msg = pickle.dumps(obj)
+            self.outq.append(msg)
+            if sched.sync:
+                # a message larger than the pipe buffer: the sender is blocked until the receiver has taken it
+                outq = self.outq
+                sched.yield_point(i, lambda: not any(m is msg for m in outq))
 
         def recv(self):
             i = self._me()
@@ -356,12 +362,12 @@ class RunOut:
     pass
 
 
-def run_threads(c, wd, tag, policy, rnd=None, script=None):
+def run_threads(c, wd, tag, policy, rnd=None, script=None, sync=False):
     """one run of the real controller and chains under the cooperative scheduler"""
     import hmclab.Samplers as S
     from .probes import ExpProxy
     samplers, targets, ims = build(c)
-    sched = Sched(policy, rnd, script)
+    sched = Sched(policy, rnd, script, sync)
     FakeProc, fake_pipe, FakeQueue, FakeValue = make_primitives(sched)
     files = [os.path.join(wd, f"{tag}_{i}.h5") for i in range(c["n"])]
     for f in files:
@@ -599,10 +605,16 @@ def run_case(c, wd, idx, tier, rnd, extra):
                     stats["swaps"] += int(not same_model(ref.cols[s][p][0], ref.logs[s][p][3][0]))
     if complete:
         # other interleavings: highest-first and seeded random ones
-        for k, (policy, seed) in enumerate([("high", 0)] + [("random", rnd.randrange(1 << 30)) for _ in range(extra)]):
-            o = run_threads(c, wd, f"alt{idx}", policy, rnd=random.Random(seed))
+        for k, (policy, seed, sync) in enumerate([("high", 0, False)] + [("random", rnd.randrange(1 << 30), False) for _ in range(extra)]
+                                                 + [("random", rnd.randrange(1 << 30), True), ("low", 0, True)]):
+            o = run_threads(c, wd, f"alt{idx}", policy, rnd=random.Random(seed), sync=sync)
             stats["schedules"] += 1
             bad = o.exception is not None or o.sched.deadlocked or o.sched.errors or o.sched.timed_out
+            if bad and sync:
+                violations.append(Violation("deadlock-with-blocking-send", f"with pipes whose send returns only when the message has been received (a message larger than the operating system's pipe buffer) "
+                                            f"the run fails (deadlock={o.sched.deadlocked}, errors={[(i, type(e).__name__) for i, e in o.sched.errors.items()][:3]}); n={c['n']}, P={c['P']}, interval={c['I']}",
+                                            {"case": c, "policy": policy, "seed": seed, "sync": True}))
+                break
             if bad:
                 violations.append(Violation("schedule-dependent-failure", f"under scheduling policy {policy}/{seed} the run failed (deadlock={o.sched.deadlocked}, errors={list(o.sched.errors.items())[:2]}, "
                                             f"exception={o.exception}) while it finished under the lowest-first policy", {"case": c, "policy": policy, "seed": seed}))
@@ -696,7 +708,8 @@ def run(tier, seed):
     return {
         "evaluations": dist["schedules_run"] + dist["process_runs"] + dist["dfs_runs"], "distinct_nontrivial": len(seen),
         "rule": "1-5 chains, HMC/RWMH mixes with distinct hash targets (a few NaN/inf misfits), P in 1..12, intervals 1..7 and > P (dividing P or not), exchange on (90%) / off; "
-                "each run under lowest-first, highest-first and seeded random interleavings of the send/receive steps; some as real processes; runs with 2-3 chains and 1-3 proposals "
+                "each run under lowest-first, highest-first and seeded random interleavings of the send/receive steps, with buffered pipes and with pipes whose send blocks until the message "
+                "is received; some as real processes; runs with 2-3 chains and 1-3 proposals "
                 "under every interleaving (depth-first enumeration); non-trivial = at least one scheduled exchange",
         "samples": samples, "violations": violations,
         "traces_validated_against_impl": len(coq_cases) - len(set(res["c12_check"]) | set(res["c12_check_net"])),
